@@ -20,6 +20,15 @@ import (
 //	vh c12-explore -seed 55 -n 6 -prelude -table /tmp/x/prelude.json        sites of the fixed prelude
 //	vh c12-mktable -root <verif tree> -drop arith-kind,const-typed,prelude /tmp/x/all.json /tmp/x/two.json /tmp/x/prelude.json
 //
+// Incremental variant (only the sweep job changed, e.g. a new sweep dimension): turn the current table
+// into exploration rows ({key, classes: {class: 1}, line, err, ref} per row of c12_escapes.json), then
+//
+//	vh c12-explore -rounds 0 -table /tmp/x/sweep.json      the sweep job only (also prints the well-typed
+//	                                                       controls that yaegi does not accept)
+//	vh c12-mktable -root <verif tree> /tmp/x/old.json /tmp/x/sweep.json
+//
+// and copy the counts of findings.d/C12.json into the C12-esc-NN entries of KNOWN_FINDINGS.json.
+//
 // c12-mktable refuses a key observed with two different classes (the keys must be fine enough for
 // yaegi's verdict to be a function of the key). A finding that has been repaired in yaegi shows up in
 // the check as "implementation differs from model Y" on the keys of that finding: regenerate the table.
@@ -60,6 +69,9 @@ func init() {
 				total++
 				if m.RefErr == "" {
 					dropped++
+					if m.Control && m.Obs.Class != "" && m.Obs.Class != "compiled" {
+						fmt.Printf("CONTROL NOT ACCEPTED %s -> %s %s\n", m.Key, m.Obs.Class, m.Obs.Err)
+					}
 					continue
 				}
 				r := rows[m.Key]
